@@ -1444,7 +1444,7 @@ class Interp:
             if v is None and owner is None:
                 raise Raised(ExcVal("AttributeError", args=(f"{obj.cls.name}.{name}",)))
             if isinstance(v, PyFn):
-                return Bound(v, obj)
+                return v if getattr(v, "is_staticmethod", False) else Bound(v, obj)
             if isinstance(v, Closure):
                 if getattr(v, "is_property", False):
                     return self.call(Bound(v, obj), [], {})         # @property: reading the attribute runs the getter
@@ -2022,6 +2022,9 @@ class Interp:
             if len(idx) == 1:
                 return PyFn(lambda I_, a, k: I_.getitem(a[0], idx[0]), "itemgetter")
             return PyFn(lambda I_, a, k: tuple(I_.getitem(a[0], i_) for i_ in idx), "itemgetter")
+        if d == "operator.methodcaller" and args and isinstance(args[0], str):
+            mn_, margs_, mkw_ = args[0], list(args[1:]), dict(kwargs)
+            return PyFn(lambda I_, a, k: I_.call(I_.getattr(a[0], mn_), margs_, mkw_), "methodcaller")
         if d == "operator.attrgetter" and len(args) == 1 and isinstance(args[0], str) and "." not in args[0]:
             nm_ = args[0]
             return PyFn(lambda I_, a, k: I_.getattr(a[0], nm_), "attrgetter")
@@ -2304,6 +2307,13 @@ class Interp:
         mod = fn.module
         if id(fn.node) in mod.qualname_of:
             qual = f"{mod.name}::{mod.qualname_of[id(fn.node)]}"
+        if qual is not None and qual not in self.summaries and self.summaries and "." not in qual.split("::")[1]:
+            # a module-level function that other modules re-export under the same name (moved to a new module, old names kept
+            # importable): a summary registered under any of those names is a summary of this function
+            for alias in self._reexported_as(mod.name, qual.split("::")[1]):
+                if alias in self.summaries:
+                    qual = alias
+                    break
         if qual in self.summaries:
             if kwargs and self.summaries[qual] is not None:
                 # summaries look at arguments by position: a call spelled with keywords is the same call
@@ -2355,6 +2365,16 @@ class Interp:
         finally:
             self.depth -= 1
             self.qual_stack.pop()
+
+    def _reexported_as(self, defmod, name):
+        cache = self.__dict__.setdefault("_reexports", None)
+        if cache is None:
+            cache = self.__dict__["_reexports"] = {}
+            for m_ in self.repo.modules.values():
+                for local, imp in m_.imports.items():
+                    if imp[0] == "name":
+                        cache.setdefault((imp[1], imp[2]), []).append(f"{m_.name}::{local}")
+        return cache.get((defmod, name), [])
 
     def positional(self, fn, args, kwargs):
         """the arguments of a call in parameter order (keyword arguments moved to their positions; stops at the first parameter
